@@ -28,10 +28,7 @@ func TestWorker(t *testing.T) {
 	defer w.Flush()
 	for i := from; i < to; i++ {
 		os.WriteFile(out+".progress", []byte(strconv.Itoa(i)), 0o644)
-		for _, l := range runServerScenario(t, fam, seed, i) {
-			w.WriteString(l)
-			w.WriteByte('\n')
-		}
+		runServerScenario(t, fam, seed, i, w)
 		w.Flush()
 	}
 	os.WriteFile(out+".progress", []byte("done"), 0o644)
